@@ -695,6 +695,9 @@ func (r *resultBuilder) parseMsg(msg []byte, isUDP bool) (_ dnsmessage.Header, r
 	now := time.Now()
 	var parser dnsmessage.Parser
 
+	// Addresses are collected here and only added to the result when the whole message parses.
+	var a, aaaa []netip.Addr
+
 	// Parse header.
 	header, err := parser.Start(msg)
 	if err != nil {
@@ -772,14 +775,14 @@ func (r *resultBuilder) parseMsg(msg []byte, isUDP bool) (_ dnsmessage.Header, r
 			if err != nil {
 				return dnsmessage.Header{}, fmt.Errorf("failed to parse A resource: %w", err)
 			}
-			r.a = append(r.a, netip.AddrFrom4(arr.A))
+			a = append(a, netip.AddrFrom4(arr.A))
 
 		case dnsmessage.TypeAAAA:
 			aaaarr, err := parser.AAAAResource()
 			if err != nil {
 				return dnsmessage.Header{}, fmt.Errorf("failed to parse AAAA resource: %w", err)
 			}
-			r.aaaa = append(r.aaaa, netip.AddrFrom16(aaaarr.AAAA))
+			aaaa = append(aaaa, netip.AddrFrom16(aaaarr.AAAA))
 
 		default:
 			if err = parser.SkipAnswer(); err != nil {
@@ -809,6 +812,9 @@ func (r *resultBuilder) parseMsg(msg []byte, isUDP bool) (_ dnsmessage.Header, r
 		}
 		// As recommended in RFC 2308, do nothing about negative responses without SOA records.
 	}
+
+	r.a = append(r.a, a...)
+	r.aaaa = append(r.aaaa, aaaa...)
 
 	// Mark v4 or v6 as done.
 	if !header.Truncated || !isUDP {
